@@ -1,5 +1,80 @@
-"""C04 structure level -- placeholder until the corpus driver lands."""
+"""C04 structure level: checked entry points of every corpus structure."""
+
+import json
+import os
+import shutil
+import subprocess
+
+from vf import common, cxx, front, structs, struct_check
+from vf.checks import c01
+
+
+def replay(c):
+    """Native run under ASan+UBSan with runtime checks on: reproduces if the
+    process is killed by a sanitizer or an assertion."""
+    d = common.scratch_dir("verif-r4-")
+    try:
+        ir = front.compile_module(c["module"], c["import_dirs"], d)
+        src, entries = structs.write_driver(ir, c["module"], d)
+        nparams = len(c["params"])
+        call = "%s(p, n%s)" % (c["fn"], "".join(", a[%d]" % i for i in range(nparams)))
+        main = os.path.join(d, "main.cc")
+        body = c01.REPLAY_MAIN
+        if c.get("null"):
+            body = body.replace("unsigned long long r = (unsigned long long)CALL;",
+                                "free(p); p = nullptr; unsigned long long r = (unsigned long long)CALL;").replace("  free(p);\n  return 0;", "  return 0;")
+        with open(main, "w") as f:
+            f.write('#include "%s"\n#define CALL %s\n%s' % (os.path.basename(src), call, body))
+        exe = os.path.join(d, "replay")
+        cxx.compile_native(main, exe, includes=[d])
+        pvals = list(c["params"].values())
+        stdin = "%d\n%s\n%s\n" % (c["n"], " ".join("%x" % b for b in c["bytes"]),
+                                   " ".join(str(v - (1 << 64) if v >> 63 else v) for v in pvals))
+        try:
+            rc, out, err = cxx.run_native(exe, stdin)
+        except subprocess.TimeoutExpired:
+            return True, "native run timed out"
+        if rc != 0:
+            return True, "sanitizer/assert report: %s" % (err or out)[-400:]
+        return False, "native run finished cleanly"
+    finally:
+        shutil.rmtree(d, ignore_errors=True)
 
 
 def run(rep, tier):
-    return {"structures": 0, "queries": 0, "replayed": 0, "note": "not built yet"}
+    mods = struct_check.corpus()
+    if tier == "quick":
+        mods = [m for m in mods if m[0] in c01.QUICK_MODULES[:6] or not m[0].startswith("testdata/")]
+    results = struct_check.run_corpus(struct_check.check_module_c04, {"nmax": 16 if tier == "quick" else 40}, mods)
+    out = {"structures": 0, "queries": 0, "replayed": 0, "entry_point_runs": 0, "obligation_sites_by_kind": {},
+           "witnesses": 0, "modules": len(results), "not_encoded": [], "outside_claim": []}
+    seen = {}
+    for r in results:
+        out["structures"] += r.structures
+        out["queries"] += r.queries
+        out["entry_point_runs"] += r.entries
+        out["witnesses"] += r.witnesses
+        out["not_encoded"] += ["%s: %s" % (r.module, x) for x in r.not_encoded][:5]
+        out["outside_claim"] += ["%s: %s (%s)" % (r.module, a, b) for a, b in r.skipped][:5]
+        for k, v in r.obligation_sites.items():
+            out["obligation_sites_by_kind"][k] = out["obligation_sites_by_kind"].get(k, 0) + v
+        for e in r.errors[:3]:
+            rep.harness_error(e)
+        for u in r.unknown[:10]:
+            rep.inconclusive_item("%s: %s" % (r.module, u))
+        for c in r.candidates:
+            key = {"level": "structure", "module": c["module"], "struct": c["struct"], "kind": c["ob_kind"],
+                   "entry": c["kind"], "path": ".".join(c["path"])}
+            sig = json.dumps(key, sort_keys=True)
+            seen[sig] = seen.get(sig, 0) + 1
+            if seen[sig] > 1:
+                continue
+            ok, observed = replay(c)
+            out["replayed"] += 1
+            if not ok:
+                rep.inconclusive_item("candidate without native reproduction: %s (%s)" % (c["what"], observed))
+                continue
+            rep.violation(key, "%s: %s (n=%d bytes=%s params=%s)" % (c["what"], observed, c["n"], c["bytes"], c["params"]), c)
+    out["not_encoded"] = out["not_encoded"][:20]
+    out["outside_claim"] = out["outside_claim"][:20]
+    return out
